@@ -290,3 +290,26 @@ def sstruct_formats(tier, rnd):
                 r.fail("sstruct.pack(unpack(d)) != d for %s.%s" % key)
     r.sample({"formats": len(fmts)})
     return r
+
+
+@check("C15")
+def glyph_name_to_unicode_all_code_points(tier, rnd):
+    """'glyph-name to Unicode mapping': the name TTFont._makeGlyphName gives a code point (AGL
+    name, uniXXXX, uXXXXX[X]) decodes with agl.toUnicode to exactly that code point - for EVERY
+    Unicode scalar value (surrogates excluded: not encodable in a name per the AGL spec)."""
+    from fontTools.ttLib import TTFont
+    from fontTools import agl
+
+    r = Result("every Unicode scalar value 0..0x10FFFF except surrogates; distinct = (plane class, name form)")
+    r.exhaustive = True
+    for cp in range(0, 0x110000):
+        if 0xD800 <= cp <= 0xDFFF:
+            continue
+        name = TTFont._makeGlyphName(cp)
+        r.case((0 if cp < 0x10000 else 1 if cp < 0x20000 else 2, name[:3] if name.startswith("uni") else name[:1] if name[0] == "u" and len(name) > 4 else "agl"))
+        back = agl.toUnicode(name)
+        if back != chr(cp):
+            r.fail("agl.toUnicode(TTFont._makeGlyphName(0x%X) = %r) == %r" % (cp, name, back), codepoint=cp)
+            if len(r.violations) >= 5:
+                break
+    return r
